@@ -248,7 +248,7 @@ def strategy(tier):
             "dsh": st.sampled_from([0.0, 0.0, 1.0, 5.0, 10.0]),
             "dsc": st.sampled_from([0.0, 0.0, 1.0, 3.0, 8.0]),
             "eta": st.sampled_from([1.0, 0.7, 0.7, 0.85, 0.5, 0.3]),
-            "Q": st.sampled_from([1.0, 100.0, 738.7, 2500.0, 0.25]),
+            "Q": st.sampled_from([1.0, 100.0, 738.7, 2500.0, 0.25, 5e-6, 3e-4, 0.02, 1e6]),  # any positive duty: a 5 kW machine written in GW, a 1 GW one in kW
             "order": st.lists(st.sampled_from(["cond", "evap", "both"]), min_size=1, max_size=4),
             "other": st.one_of(
                 st.none(),
